@@ -131,6 +131,10 @@ func (s *Source) Config() chan config.ServerConfig { return s.ch }
 // Publish hands a configuration to the loader.
 func (s *Source) Publish(c config.ServerConfig) { s.ch <- c }
 
+type chanSource struct{ ch chan config.ServerConfig }
+
+func (c chanSource) Config() chan config.ServerConfig { return c.ch }
+
 // Options of the assembly.
 type Options struct {
 	Net      *simnet.Net
@@ -142,6 +146,11 @@ type Options struct {
 	Keys     *KeyStore
 	// WrapSource lets a check interpose on the configuration source.
 	NoServe bool // only build the loader (C13 lookups)
+	// Interpose, if set, is placed between the configuration source and the
+	// loader: it receives the source's channel and returns the channel the loader reads.
+	Interpose func(in chan config.ServerConfig) chan config.ServerConfig
+	// OnLog is called with every rendered logger message (after the internal hook).
+	OnLog func(level, text string)
 }
 
 // Ref is a running reference server.
@@ -201,6 +210,9 @@ func Start(cfg config.ServerConfig, opt Options) (*Ref, error) {
 			r.loadedC.Broadcast()
 			r.loadedMu.Unlock()
 		}
+		if opt.OnLog != nil {
+			opt.OnLog(level, text)
+		}
 	}
 	acct, err := local.New(lg, local.SetLogSink(sink))
 	if err != nil {
@@ -219,6 +231,9 @@ func Start(cfg config.ServerConfig, opt Options) (*Ref, error) {
 	} else {
 		r.Src = NewSource()
 		src = r.Src
+	}
+	if opt.Interpose != nil {
+		src = chanSource{opt.Interpose(src.Config())}
 	}
 	ld, err := loader.NewLoader(ctx, src,
 		loader.SetLoggerProvider(lg),
